@@ -25,7 +25,9 @@ Transcription rules / abstractions
   `mktypename`), so `found && typename.Type() != nil` is `found`.
 * Signatures of interface methods and of methods of named types are converted by `mksignature`
   directly (not through `typ`): modelled as going through `conv` (transparent, see above).
-* `TypeParam` (and anything generic) panics; `object` recovers and skips the object: `none`.
+* `TypeParam` (and anything generic) panics; `object` recovers and skips the object: `none`.  What the
+  panicking conversion had already created (a type name in the scope) is NOT kept by the model:
+  generic declarations are excluded by the property and never generated for the correspondence.
 * fuel bounds the recursion (every recursive call is on a subterm or on the underlying type of a
   named type that was not in the scope before: at most |env| of the latter). -/
 namespace Converter
